@@ -450,3 +450,43 @@ c13_step_no_collect!(c13_o3_alloc, step_memory, 28, POOL_MEM);
 c13_step_no_collect!(c13_o3_arraynewi, step_arrays, 130, POOL_COLL);
 c13_step_no_collect!(c13_o3_arraylit, step_arrays, 134, POOL_COLL);
 c13_step_no_collect!(c13_o3_stringforloop, step_control_flow, 177, POOL_COLL);
+
+/// MakeClosure through a *heap-pointer* function constant (the nested-marker path clones a Function and gives no verdict)
+// NOT REGISTERED: no verdict in 1800 s
+#[cfg(any())]
+#[kani::proof]
+#[kani::stub(std::hash::RandomState::new, stub_random_state)]
+#[kani::stub(std::fmt::format, stub_format)]
+#[kani::stub(crate::vm::VM::runtime_error, stub_runtime_error)]
+#[kani::stub(crate::vm::GlobalLayout::empty, stub_layout_empty)]
+#[kani::stub(crate::vm::VM::verify_function_value, stub_verify_value)]
+#[kani::stub(crate::vm::VM::collect, stub_collect)]
+fn c13_o3_makeclosure_ptr() {
+    let mut vm = verif_vm();
+    let abc: u32 = kani::any();
+    kani::assume(abc <= 0x00FF_FFFF && ((abc >> 8) & 0xFF) == 0 && (abc & 0xFF) <= 1); // MakeClosure rA, k0, 0..1 upvalues
+    let mut f = mk_function(vec![(35u32 << 24) | abc, 23u32 << 24], vec![Value::ptr(1)], 0, 3);
+    f.upvalue_descriptors = vec![UpvalueDescriptor { is_local: true, index: 0 }];
+    let fr = install_function(&mut vm, f);
+    let mut g = mk_function(vec![23u32 << 24], vec![], 0, 2);
+    g.upvalue_descriptors = vec![UpvalueDescriptor { is_local: kani::any(), index: kani::any() }];
+    let gr = install_function(&mut vm, g); // object 1: the function constant 0 points at
+    let base: usize = kani::any();
+    kani::assume(base <= 2);
+    push_function_frame(&mut vm, fr, base, 0);
+    fill_registers_any(&mut vm);
+    vm.heap.verif_set_gc_threshold(kani::any());
+    kani::assume(vm.heap.should_collect());
+    let d: usize = kani::any();
+    kani::assume(d >= 1 && d <= 64);
+    vm.no_gc_depth = d;
+    unsafe { VERIF_COLLECTED = false; }
+    let mut out = None;
+    let r = vm.step_closures::<35>(&mut out);
+    assert!(unsafe { !VERIF_COLLECTED });
+    assert!(vm.no_gc_depth == d);
+    kani::cover!(r.is_ok() && out.is_some(), "REQ closure created");
+    let _ = gr;
+    std::mem::forget(r);
+    std::mem::forget(vm);
+}
